@@ -16,6 +16,8 @@ expr e: {"lit": "tok"} | {"var": "name"}
 src (get_context_data): ["const", s] | ["kw", param] | ["id"] | ["inject", key, field, default|None]
 """
 import re
+import sys
+import types
 
 # ---------------------------------------------------------------------------
 # printer
@@ -144,7 +146,19 @@ def build(program, rec, opts=None, name_prefix=""):
 
     classes = {}
     opts = opts or {}
-    for spec in program["comps"]:
+    by_name = {c["name"]: c for c in program["comps"]}
+    order = []
+
+    def visit(c):
+        if c["name"] in [o["name"] for o in order]:
+            return
+        if c.get("base") and c["base"] in by_name:
+            visit(by_name[c["base"]])
+        order.append(c)
+
+    for c in program["comps"]:
+        visit(c)
+    for spec in order:
         src = template_source(spec["tpl"], opts)
 
         def make_gcd(spec):
@@ -206,8 +220,14 @@ def build(program, rec, opts=None, name_prefix=""):
             m = spec["media"]
             attrs["Media"] = type("Media", (), {k: v for k, v in m.items() if v is not None})
         clsname = spec.get("clsname") or ("%sComp_%s" % (name_prefix, spec["name"]))
-        cls = type(clsname, (Component,), attrs)
+        base_cls = classes[spec["base"]] if spec.get("base") in classes else Component
+        cls = type(clsname, (base_cls,), attrs)
         cls.__module__ = "vfgen.%s" % (name_prefix or "m")
+        if cls.__module__ not in sys.modules:
+            # Media handling looks the class's module up; a file-less module means "no relative paths"
+            mod = types.ModuleType(cls.__module__)
+            mod.__file__ = None
+            sys.modules[cls.__module__] = mod
         registry.register(spec["name"], cls)
         classes[spec["name"]] = cls
     return classes, template_source(program["page"]["tpl"], opts)
